@@ -13,6 +13,7 @@ import (
 	"encoding/json"
 	"fmt"
 	"os"
+	"runtime"
 	"runtime/debug"
 	"runtime/pprof"
 	"strings"
@@ -242,6 +243,10 @@ func replayFile(path string) {
 }
 
 func main() {
+	// The quiescence barrier and the cooperative scheduler are defined for ONE processor (every other goroutine is
+	// then either runnable or blocked while the harness runs); workers get GOMAXPROCS=1 from ev.Sharded / check.conf,
+	// this makes a directly started binary (replay, debugging) behave the same.
+	runtime.GOMAXPROCS(1)
 	for i, a := range os.Args {
 		if a == "--replay" && i+1 < len(os.Args) {
 			replayFile(os.Args[i+1])
